@@ -1096,6 +1096,8 @@ def move_imports_to_toplevel(source: str) -> str:
             for alias in node.names
             for name in [alias.asname or alias.name.split(".")[0]]
         )
+        # (a starred import may bind any name)
+        and "*" not in import_meanings
     }
 
     for i, node in enumerate(root.body):
